@@ -565,7 +565,8 @@ class IntervalInterp:
                 x = self.ev(args[0], env) if args else AV()
                 lo, hi = (self.ev(a, env) for a in args[1:3]) if len(args) >= 3 else (AV(), AV())
             kind = x.kind if x.kind in ("array", "scalar") else ("array" if base is not None and not name.startswith(("np.", "numpy.")) else "scalar")
-            return AV(max(x.lo, lo.lo), min(x.hi, hi.hi), kind, None, x.size)
+            # clip(x, lo, hi) = min(max(x, lo), hi): when the upper limit can lie below the lower one it wins
+            return AV(min(max(x.lo, lo.lo), hi.lo), min(max(x.hi, lo.hi), hi.hi), kind, None, x.size)
         if last in ("array", "asarray"):
             v = self.ev(args[0], env) if args else AV()
             return AV(v.lo, v.hi, "array", v.member, v.size)
